@@ -148,7 +148,7 @@ P('C04', claimed=True, level='other', contracts=['synth_controls', 'synth_buildc
               'abstracted to their lengths plus the trace of appended elements.'))
 
 P('C05', claimed=True, level='other',
-  contracts=['base_clock_loops', 'base_clock_sched', 'base_stream', 'base_main'], drivers=['vf.drivers.C05'],
+  contracts=['base_clock_loops', 'base_clock_sched', 'base_stream', 'base_main', 'base_clock_stop'], drivers=['vf.drivers.C05'],
   level_text=('Data-flow obligations on the real clock loop bodies: a task that returns a number is '
               're-scheduled exactly once at its scheduled time plus that number (no occurrence of the '
               'physical time in the term), logical time is set to the scheduled time before the task '
